@@ -256,7 +256,37 @@ class CallListerVisitor(ast.NodeVisitor):
             if not isinstance(name, Unknown) and not (ro and isinstance(name, ast.Name)):
                 self.visit(name)
 
+    def bind_name(self, name, node):
+        # statements other than assignments that (re)bind a name
+        if name is not None:
+            self.namespace[name] = Unknown(node)
+
+    def visit_ClassDef(self, node):
+        self.bind_name(node.name, node)
+        self.generic_visit(node)
+
+    def visit_Import(self, node):
+        for alias in node.names:
+            self.bind_name(alias.asname or alias.name.split('.')[0], node)
+
+    visit_ImportFrom = visit_Import
+
+    def visit_ExceptHandler(self, node):
+        self.bind_name(node.name, node)
+        self.generic_visit(node)
+
+    def visit_MatchAs(self, node):
+        self.bind_name(node.name, node)
+        self.generic_visit(node)
+
+    visit_MatchStar = visit_MatchAs
+
+    def visit_MatchMapping(self, node):
+        self.bind_name(node.rest, node)
+        self.generic_visit(node)
+
     def visit_FunctionDef(self, node):
+        self.bind_name(getattr(node, 'name', None), node)
         # default values and decorators are evaluated in the enclosing scope
         for expr in getattr(node, 'decorator_list', []):
             self.visit(expr)
